@@ -5,7 +5,8 @@ import random
 from . import tlc, render
 from .common import Scratch, seed as _seed, vlog
 
-SIGS = [1, 2, 3, 4, 5, 6, 7, 8, 9, 10, 11]
+TEMPL_FAMILIES = ["loopif", "elif", "nested", "listidx", "swapuse", "ifaug"]
+SIGS = [1, 2, 3, 4, 5, 6, 7, 8, 9, 10, 11, 12, 13]
 CFG = ("SPECIFICATION Spec\nCONSTANTS MaxTok = %d\n MaxStack = %d\n MaxStmts = %d\n SigId = %d\n Stmts = %s\n Lean = %s\n"
        "INVARIANT Emit\nCHECK_DEADLOCK FALSE\n")
 
@@ -51,12 +52,14 @@ def features(node, acc=None):
             acc.add(node["op"]["T"])
         elif t == "Compare":
             acc.add("Cmp" + node["ops"][0]["T"])
+            l, r = node["left"], node["comparators"][0]
+            acc.add("Cmp:" + l.get("id", l["T"]) + "," + r.get("id", r["T"]))
         elif t == "Call":
             acc.add("call:" + node["func"].get("id", "?"))
         elif t == "Name":
             acc.add("var:" + node["id"])
         elif t == "Subscript":
-            acc.add("Sub:" + node["slice"]["T"])
+            acc.add("Sub:" + node["value"].get("id", node["value"]["T"]) + "[" + node["slice"]["T"] + "]")
         elif t in ("If", "For", "IfExp", "AugAssign", "Tuple"):
             acc.add(t)
         for v in node.values():
@@ -68,8 +71,32 @@ def features(node, acc=None):
 
 
 def stratified(ps, rng, cap):
-    """at most `cap` programs, spread over the distinct feature sets (rare constructs are not crowded out)"""
+    """at most `cap` programs: first, for every single construct (operator, builtin, statement kind, subscript
+    kind, argument read) a few small programs that use it, so that every action of the generator is represented;
+    then programs spread over the distinct feature SETS (rare combinations are not crowded out)"""
     rng.shuffle(ps)
+    feats = [(p, frozenset(features(p["body"]))) for p in ps]
+    byf = {}
+    for p, fs in feats:
+        for f in fs:
+            byf.setdefault(f, []).append(p)
+    must, seen = [], set()
+    for f in sorted(byf):
+        cands = sorted(byf[f], key=lambda p: len(json.dumps(p["body"])))[:12]
+        rng.shuffle(cands)
+        for p in cands[:2]:
+            k = id(p)
+            if k not in seen:
+                seen.add(k)
+                must.append(p)
+    ps = [p for p in ps if id(p) not in seen]
+    cap = max(0, cap - len(must))
+    if cap == 0:
+        return must
+    return must + _by_sets(ps, rng, cap)
+
+
+def _by_sets(ps, rng, cap):
     strata = {}
     for p in ps:
         strata.setdefault(frozenset(features(p["body"])), []).append(p)
@@ -88,6 +115,25 @@ def generate(tier, sd):
     key = (tier, sd)
     if key in _cache:
         return _cache[key]
+    # the generated corpus depends only on the generator specification, the tier and the seed: it is kept under
+    # /verif/out/cache (derived data, rebuilt when absent or when the specification changes) and shared by the checks
+    import hashlib, os
+    from .common import OUT, SPEC
+    h = hashlib.sha256()
+    for fn in (os.path.join(SPEC, "ProgGen.tla"), os.path.join(SPEC, "AstLib.tla"), os.path.join(SPEC, "TemplGen.tla"), __file__, os.path.join(os.path.dirname(__file__), "render.py")):
+        with open(fn, "rb") as f:
+            h.update(f.read())
+    cpath = os.path.join(OUT, "cache", f"proggen-{tier}-{sd}-{h.hexdigest()[:16]}.json")
+    if os.path.exists(cpath):
+        try:
+            with open(cpath) as f:
+                res, gstats = json.load(f)
+            gstats["from_cache"] = True
+            _cache[key] = (res, gstats)
+            vlog("proggen (cached)", len(res))
+            return _cache[key]
+        except Exception:
+            pass
     rng = random.Random(sd)
     out, seen = [], set()
     gstats = {"generated": 0, "distinct": 0, "bfs_programs": 0, "sim_programs": 0}
@@ -97,7 +143,7 @@ def generate(tier, sd):
         for sig in SIGS:
             # exhaustive layers: expressions only and with statement templates, to a token bound
             if quick:
-                layers = [(True, 4)] if sig in deep else [(True, 3)]
+                layers = [(True, 4)]
             else:
                 layers = [(False, 5), (True, 5)]
             for stmts, mt in layers:
@@ -105,7 +151,7 @@ def generate(tier, sd):
                 gstats["generated"] += st.get("generated", 0)
                 gstats["distinct"] += st.get("distinct", 0)
                 gstats["bfs_programs"] += len(ps)
-                ps = stratified(ps, rng, (80 if sig in deep else 30) if quick else 400)
+                ps = stratified(ps, rng, 60 if quick else 400)
                 for p in ps:
                     out.append((p, f"ProgGen-bfs-sig{sig}"))
             # statement structure: lean expressions, deeper BFS, stratified by the shape of the body
@@ -120,12 +166,34 @@ def generate(tier, sd):
             for k in sorted(strata):
                 for p in strata[k][: (2 if quick else 12)]:
                     out.append((p, f"ProgGen-lean-sig{sig}"))
-            # deep random behaviours
-            ps, st = _run(sc, sig, 0, True, sim=(150 if quick else 3000), depth=(11 if quick else 13), sd=sd * 100 + sig)
+            # statement structure, deep: random behaviours of the lean machine (loop variables in tests, elif, nested loops)
+            ps, st = _run(sc, sig, 0, True, sim=(600 if quick else 4000), depth=15, sd=sd * 100 + 50 + sig, lean=True)
             gstats["sim_programs"] += len(ps)
-            ps = stratified(ps, rng, 60 if quick else 400)
+            strata = {}
+            rng.shuffle(ps)
+            for p in ps:
+                strata.setdefault(shape(p["body"]), []).append(p)
+            for k in sorted(strata):
+                for p in strata[k][: (1 if quick else 6)]:
+                    out.append((p, f"ProgGen-leansim-sig{sig}"))
+            # deep random behaviours
+            ps, st = _run(sc, sig, 0, True, sim=(1200 if quick else 6000), depth=(11 if quick else 13), sd=sd * 100 + sig)
+            gstats["sim_programs"] += len(ps)
+            ps = stratified(ps, rng, 110 if quick else 500)
             for p in ps:
                 out.append((p, f"ProgGen-sim-sig{sig}"))
+    # statement templates (spec/TemplGen.tla): every member of each family in the thorough tier, a seeded sample otherwise
+    with Scratch("templgen") as sc:
+        for fam in TEMPL_FAMILIES:
+            cfg = f"SPECIFICATION Spec\nCONSTANT Family = \"{fam}\"\nINVARIANT Emit\nCHECK_DEADLOCK FALSE\n"
+            r = tlc.run_model("TemplGen", cfg, sc, workers=4, timeout=600, tags=("P",), heap="4g")
+            ps = [json.loads(v[1]) for v in r["prints"]["P"]]
+            gstats["generated"] += r["stats"].get("generated", 0)
+            gstats["distinct"] += r["stats"].get("distinct", 0)
+            gstats["templ_programs"] = gstats.get("templ_programs", 0) + len(ps)
+            rng.shuffle(ps)
+            for p in (ps[:45] if quick else ps):
+                out.append((p, f"TemplGen-{fam}"))
     res = []
     for p, origin in out:
         try:
@@ -137,9 +205,38 @@ def generate(tier, sd):
         seen.add(src)
         res.append({"src": src, "origin": origin})
     vlog("proggen", len(res), gstats)
+    try:
+        os.makedirs(os.path.dirname(cpath), exist_ok=True)
+        tmp = cpath + f".{os.getpid()}"
+        with open(tmp, "w") as f:
+            json.dump([res, gstats], f)
+        os.replace(tmp, cpath)
+    except OSError:
+        pass
     _cache[key] = (res, gstats)
     return res, gstats
 
 
+QUICK_CAPS = {"TemplGen": 400, "ProgGen-leansim": 130, "ProgGen-lean": 260, "ProgGen-bfs": 480, "ProgGen-sim": 560}
+
+
 def programs(pid, tier, sd):
-    return generate(tier, sd)[0]
+    res = generate(tier, sd)[0]
+    if tier != "quick":
+        return res
+    # quick tier: a fixed budget per generator layer (seeded choice; the per-signature stratification above already
+    # put the rare constructs first in each layer)
+    rng = random.Random(sd + 17)
+    groups = {}
+    for p in res:
+        k = next(g for g in QUICK_CAPS if p["origin"].startswith(g))
+        groups.setdefault(k, []).append(p)
+    out = []
+    for k, ps in groups.items():
+        bysig = {}
+        for p in ps:
+            bysig.setdefault(p["origin"], []).append(p)
+        per = max(1, QUICK_CAPS[k] // max(1, len(bysig)))
+        for o in sorted(bysig):
+            out += bysig[o][:per]
+    return out
